@@ -153,13 +153,15 @@ impl Prop for C11 {
             gen::moderate(20),
             vec(any::<u16>(), 4..10),
             gen::common_scale(250),
-            (prop_oneof![16 => Just(1.0), 4 => (-100i32..=40).prop_map(|k| ppv_exact::pow2_f64(k as i64)), 1 => (1000i32..=1019).prop_map(|k| ppv_exact::pow2_f64(k as i64))], 0u8..18),
+            (prop_oneof![16 => Just(1.0), 4 => (-100i32..=40).prop_map(|k| ppv_exact::pow2_f64(k as i64)), 1 => (1016i32..=1020).prop_map(|k| ppv_exact::pow2_f64(k as i64))], 0u8..18),
         )
             .prop_map(|((fam, deg0, shift, kclass, kfrac), ends0, pool, ky, qs, sc, (xsc, open))| {
                 let pool: Vec<f64> = pool.into_iter().map(|v| v * sc).collect();
                 let ky = ky * sc;
                 let deg = if fam == 0 { deg0 % 8 } else { deg0 };
-                let off = if fam == 0 { [0.0, -1.0, -2.5][shift as usize] } else { 0.0 };
+                // (with the huge abscissa scale the ends are centred on zero: adjacent breakpoints of opposite sign
+                // whose distance exceeds f64::MAX)
+                let off = if fam == 0 { if xsc > 1e100 { -10.0 } else { [0.0, -1.0, -2.5][shift as usize] } } else { 0.0 };
                 let ends: Vec<f64> = ends0.iter().map(|e| e + off).collect();
                 let e0 = ends[0];
                 let fr = (kfrac as f64 + 1.0) / 65538.0; // (0,1)
@@ -180,7 +182,11 @@ impl Prop for C11 {
                     }
                 };
                 let mut alpha = gen::alphabet(&ends, &[kx], false);
-                alpha.retain(|t| t.is_finite() && t.abs() < 100.0 && (fam == 0 || *t > 1e-3));
+                let tmax = if xsc > 1e100 { 15.9 } else { 100.0 };
+                alpha.retain(|t| t.is_finite() && t.abs() < tmax && (fam == 0 || *t > 1e-3));
+                if alpha.is_empty() {
+                    alpha.push(ends[0]);
+                }
                 let ts: Vec<f64> = qs.iter().map(|&q| alpha[idx(q, alpha.len())] * xsc).collect();
                 // common abscissa scale (exact power of two) and, 1 case in 6, an open-ended last piece
                 let huge = xsc > 1e100;
